@@ -107,6 +107,21 @@ func cfgFor(prop string) propCfg {
 var propOverrides = map[string]func(*propCfg){
 	"C02": func(c *propCfg) { c.quickRuns, c.quickSecs = 1500, 100 },
 	"C39": func(c *propCfg) { c.quickRuns, c.quickSecs = 800, 90 },
+	"C11": func(c *propCfg) {
+		c.level = "fault_enumeration"
+		c.plans = func(base uint64, tier string) []*plan.Plan {
+			ps := plan.EnumC11(base, tier)
+			n := 150
+			if tier == "thorough" {
+				n = 6000
+			}
+			for i := 0; i < n; i++ {
+				ps = append(ps, plan.Generators["C11"](seedFor(base, "C11", i)))
+			}
+			return ps
+		}
+		c.quickSecs, c.thoroughSecs = 120, 1800
+	},
 }
 
 type agg struct {
